@@ -49,6 +49,9 @@ func VH_C05_PEChecksumSpec() {
 	vhReach("compared") // vh:require compared
 }
 
+// H05.checksum-step: one 16-bit word added to the running PE checksum from an
+// arbitrary reachable state updates it exactly as the specification's
+// end-around-carry sum does, so whole files of any length follow by induction.
 func VH_C05_PEChecksumStep() {
 	s0 := uint32(vhU16("sum"))
 	size0 := vhU32("size")
